@@ -257,6 +257,7 @@ static void do_call(const char *kind) {
     dirty_bytes = saved; pthread_attr_destroy(&a);
 }
 static void do_call_here(const char *kind) {
+    rc->sl_opens = rc->sl_closes = rc->sl_msgs = 0; rc->sl_open_at_exec = -1; rc->sl_last[0] = 0;
     rc->ncalls = 0; rc->mode = cur.real ? REC_MODE_REAL : REC_MODE_RETURN; rc->ret = cur.ret; rc->err = cur.err; rc->on_call = at_exec;
     free(cur.s_path); cur.s_path = cur.path ? (unsigned char *) strdup((char *) cur.path) : NULL;
     cur.s_argv = dupvec(cur.argv, cur.argc); cur.s_envp = dupvec(cur.envp, cur.envc);
@@ -286,6 +287,13 @@ static void do_call_here(const char *kind) {
         int intact = (cur.path && cur.s_path ? strcmp((char *) cur.path, (char *) cur.s_path) == 0 : cur.path == cur.s_path) && veceq(cur.argv, cur.s_argv) && veceq(cur.envp, cur.s_envp);
         opf("{\"ev\":\"ret\",\"label\":\"%s\",\"kind\":\"%s\",\"n_real\":%d,\"ret\":%d,\"errno\":%d,\"inputs_intact\":%d,\"environ_same\":%d,\"us\":%lld,\"signals\":%d,\"lastsig\":%d,",
             cur.label, kind, (int) rc->ncalls, r, e, intact, (environ == env0 && vec_sum(environ) == envsum0), t1 - t0, (int) sigcount, lastsig);
+        if (getenv("REC_SYSLOG")) {
+            opf("\"syslog\":{\"open_at_exec\":%d,\"open_after\":%d,\"opens\":%d,\"closes\":%d,\"msgs\":%d,\"pri\":%d,\"opt\":%d,\"fac\":%d,\"ident\":\"", (int) rc->sl_open_at_exec, (int) rc->sl_open, (int) rc->sl_opens, (int) rc->sl_closes, (int) rc->sl_msgs, (int) rc->sl_pri, (int) rc->sl_opt, (int) rc->sl_fac);
+            for (const unsigned char *q = (const unsigned char *) rc->sl_ident_copy; *q; q++) opf("%02x", *q);
+            opf("\",\"last\":\"");
+            for (const unsigned char *q = (const unsigned char *) rc->sl_last; *q; q++) opf("%02x", *q);
+            opf("\"},");
+        }
         if (cur.want_snap) { snapshot("snap"); opf(","); }
         drain_all("sinks"); opf("}\n"); oflush();
     }
